@@ -982,7 +982,7 @@ func filesScenario(r *hx.Rand, dir string) scenario {
 		content := genFile(r, benches, pkgs, scale, tags)
 		if f == noteFile {
 			// a file key only this file has: the other files' tables carry it with an EMPTY value
-			content = "note: first\n" + content
+			content = "note: " + hx.Pick(r, []string{"first", "first run, cold cache", "a,b", "6\" pipe", "\"q\""}) + "\n" + content
 		}
 		os.WriteFile(p, []byte(content), 0o666)
 		unitMask = 0
@@ -1163,7 +1163,7 @@ func tagList(tags map[string]bool, order []string) string {
 	return strings.Join(tl, "+")
 }
 
-var e2eTags = []string{"wide", "tie", "emptykey", "cfggroup", "warn30", "colsets", "widehdr", "numtie", "zero", "compare", "nodelta", "missing", "tables", "levels2", "levels3", "levels4", "levels5", "multirow", "units", "warn"}
+var e2eTags = []string{"quotedkey", "wide", "tie", "emptykey", "cfggroup", "warn30", "colsets", "widehdr", "numtie", "zero", "compare", "nodelta", "missing", "tables", "levels2", "levels3", "levels4", "levels5", "multirow", "units", "warn"}
 
 func runScenario(sc scenario) {
 	myid := id
@@ -1320,6 +1320,14 @@ func e2eCases(r *hx.Rand) {
 	os.WriteFile(filepath.Join(dir, "k2.txt"), []byte("BenchmarkB-8 1 3 ns/op\nBenchmarkA/k=1-8 1 1 ns/op\nBenchmarkA/k=2-8 1 2 ns/op\n"), 0o666)
 	runScenario(scenario{[]string{filepath.Join(dir, "k2.txt")}, ".name", ".file", map[string]bool{"emptykey": true, "tables": true}})
 	curTableBy = ".config"
+	// C16-Y: table-key values that need CSV quoting (commas, double quotes, a quote at the start,
+	// leading/trailing blanks) — the key line must be ONE record with ONE field in the CSV
+	noteVals := []string{"first run, cold cache", "a,b,c", "6\" pipe", "\"quoted\"", "\"", "x, \"y\", z", "  padded  ", "tab\there", ",", "plain"}
+	for i := 0; i+1 < len(noteVals); i += 2 {
+		os.WriteFile(filepath.Join(dir, "y1.txt"), []byte("note: "+noteVals[i]+"\nBenchmarkA-8 1 1 ns/op\nBenchmarkB-8 1 2 ns/op\n"), 0o666)
+		os.WriteFile(filepath.Join(dir, "y2.txt"), []byte("note: "+noteVals[i+1]+"\nBenchmarkA-8 1 3 ns/op\n"), 0o666)
+		runScenario(scenario{[]string{filepath.Join(dir, "y1.txt"), filepath.Join(dir, "y2.txt")}, ".fullname", ".file", map[string]bool{"quotedkey": true, "tables": true}})
+	}
 	// C10-R shape: a row with a zero centre next to two magnitudes of different prefixes (>= 3 columns)
 	os.WriteFile(filepath.Join(dir, "s0.txt"), []byte("BenchmarkX-8 1 0 B/op 0 ns/op\nBenchmarkY-8 1 7 B/op 3 ns/op\n"), 0o666)
 	os.WriteFile(filepath.Join(dir, "s1.txt"), []byte("BenchmarkX-8 1 5 B/op 12 ns/op\nBenchmarkY-8 1 9 B/op 4 ns/op\n"), 0o666)
